@@ -253,7 +253,9 @@ class Scen:
                     self.rows.append([tok, s["sig"], self.msg(msg)])
                     sign_rows.append([tok, self.msg(msg), lat(bytes.fromhex(s["sig"]))])
                 else:
-                    self.rows.append([s["keyid"], s["signature"], self.msg(msg)])
+                    # the signed digest covers other_headers: the oracle value is signature|other_headers, lower case
+                    # (Meta.gpg_sig_value)
+                    self.rows.append([s["keyid"], s["signature"].lower() + "|" + s.get("other_headers", "").lower(), self.msg(msg)])
         else:
             msg = md.pae()
             dumps_rows.append([False, fj, lat(raw)])
